@@ -128,6 +128,10 @@ func (s *TimerQueue) RunEvery(interval int, r Runnable) int {
 
 func (s *TimerQueue) schedule(deadline, period int64, r Runnable) int {
 	s.guard.Lock()
+	if s.refer == nil { // shut down: no timer is scheduled any more (0 is never a timer's id)
+		s.guard.Unlock()
+		return 0
+	}
 	var id = s.nextID()
 	var node = newTimerNode(id, deadline, period, r)
 	s.refer[id] = node
